@@ -71,6 +71,18 @@ Proof.
   rewrite !orb_true_iff, !Z.eqb_eq, Z.geb_le. tauto.
 Qed.
 
+(* the documented rule for transport errors: only timeouts (of net.Error values) are retried *)
+Lemma default_predicate_error_spec ne to tmp :
+  default_predicate_error ne to tmp = ne && to.
+Proof. destruct ne, to, tmp; reflexivity. Qed.
+
+Lemma default_predicate_error_outcome ne to tmp :
+  default_predicate (OErr ne to tmp) = PRetry <-> (ne = true /\ to = true).
+Proof.
+  unfold default_predicate. cbn [err_flags]. rewrite default_predicate_error_spec.
+  destruct ne, to; cbn; split; intro H; try discriminate; auto; destruct H; discriminate.
+Qed.
+
 Lemma default_policy_wellformed :
   0 < default_min_wait /\ default_min_wait <= default_max_wait /\ 0 <= default_max_retry.
 Proof. unfold default_min_wait, default_max_wait, default_max_retry. lia. Qed.
@@ -102,13 +114,13 @@ Proof. destruct (exp_backoff_total oob rnd e attempt o) as [d ->]. discriminate.
 (* the original source: a zero jitter panics, whatever the conversion of out-of-range
    floats and whatever the random source *)
 Lemma exp_backoff_prefix_panics :
-  forall oob rnd, exp_backoff_prefix oob rnd (mkE 250000000 (2 # 1) (0 # 1)) 0 OTimeout = BPanic.
+  forall oob rnd, exp_backoff_prefix oob rnd (mkE 250000000 (2 # 1) (0 # 1)) 0 (OErr true true true) = BPanic.
 Proof. intros. reflexivity. Qed.
 
 Lemma exp_backoff_prefix_refuted :
   exists e attempt o, forall oob rnd, exp_backoff_prefix oob rnd e attempt o = BPanic.
 Proof.
-  exists (mkE 250000000 (2 # 1) (0 # 1)), 0, OTimeout. exact exp_backoff_prefix_panics.
+  exists (mkE 250000000 (2 # 1) (0 # 1)), 0, (OErr true true true). exact exp_backoff_prefix_panics.
 Qed.
 
 (* Retry-After on 429: the backoff is exactly that many seconds *)
@@ -154,11 +166,16 @@ Inductive step_spec (p : policy) (cn : cancel) (bd : body) (st : bstate) (sc : l
           (t attempt : Z) (tr : list event) : step_res -> Prop :=
 | SSstop bh sc' got st1 o t1 :
     next_beh sc = (bh, sc') -> serve cn bd st bh t = (got, st1, o, t1) ->
-    (generic_retry p attempt o = DStop \/ generic_retry p attempt o = DFail \/
+    (generic_retry p attempt o = DStop \/
      (exists d, generic_retry p attempt o = DWait d /\
                 (d < 0 \/ rewind bd st1 = RwNoGetBody \/ rewind bd st1 = RwGetBodyErr))) ->
     step_spec p cn bd st sc t attempt tr
               (Done (mkOut (result_of_outcome o) st1 sc' t1 (tr ++ [EAttempt t got])))
+| SSfail bh sc' got st1 o t1 :
+    next_beh sc = (bh, sc') -> serve cn bd st bh t = (got, st1, o, t1) ->
+    generic_retry p attempt o = DFail ->
+    step_spec p cn bd st sc t attempt tr
+              (Done (mkOut (fail_result o) st1 sc' t1 (tr ++ [EAttempt t got])))
 | SSpanic bh sc' got st1 o t1 :
     next_beh sc = (bh, sc') -> serve cn bd st bh t = (got, st1, o, t1) ->
     generic_retry p attempt o = DPanic ->
@@ -185,15 +202,15 @@ Proof.
   destruct (serve cn bd st bh t) as [[[got st1] o] t1] eqn:Hs.
   destruct (generic_retry p attempt o) as [| |d|] eqn:Hg.
   - eapply SSstop; eauto.
-  - eapply SSstop; eauto.
+  - eapply SSfail; eauto.
   - destruct (d <? 0) eqn:Hd.
-    + eapply SSstop; eauto. right; right. exists d. split; [exact Hg|left; lia].
+    + eapply SSstop; eauto. right. exists d. split; [exact Hg|left; lia].
     + destruct (rewind bd st1) as [st2| |] eqn:Hr.
       * destruct (cancelled_before cn (t1 + d)) eqn:Hc.
         -- eapply SScancel; eauto. lia.
         -- eapply SSnext; eauto. lia.
-      * eapply SSstop; eauto. right; right. exists d. split; [exact Hg|auto].
-      * eapply SSstop; eauto. right; right. exists d. split; [exact Hg|auto].
+      * eapply SSstop; eauto. right. exists d. split; [exact Hg|auto].
+      * eapply SSstop; eauto. right. exists d. split; [exact Hg|auto].
   - eapply SSpanic; eauto.
 Qed.
 
@@ -241,7 +258,7 @@ Proof.
   intros st0 sc0 t0 a tr _ _.
   pose proof (rt_step_spec p cn bd st0 sc0 t0 a tr) as H.
   inversion H; subst; cbn [o_res]; try discriminate; try exact I.
-  destruct o; discriminate.
+  all: destruct o; discriminate.
 Qed.
 
 (* ------------------------------------------------------------------ *)
@@ -289,6 +306,7 @@ Proof.
   pose proof (rt_step_spec p cn bd st0 sc0 t0 a tr) as H.
   inversion H; subst; cbn [o_res]; try discriminate; try exact I.
   - destruct o; discriminate.
+  - destruct o; discriminate.
   - exfalso. eapply generic_retry_no_panic; eauto.
 Qed.
 
@@ -296,10 +314,12 @@ Qed.
 Lemma round_trip_nonretryable p cn bd st sc t bh sc' got st1 o t1 :
   next_beh sc = (bh, sc') -> serve cn bd st bh t = (got, st1, o, t1) ->
   p_pred p o <> PRetry ->
-  round_trip p cn bd st sc t = mkOut (result_of_outcome o) st1 sc' t1 [EAttempt t got].
+  exists r, (r = result_of_outcome o \/ r = fail_result o) /\
+            round_trip p cn bd st sc t = mkOut r st1 sc' t1 [EAttempt t got].
 Proof.
   intros Hn Hs Hp. unfold round_trip, rt_fuel. cbn [rt_loop]. unfold rt_step. rewrite Hn, Hs.
-  destruct (generic_retry_nonretryable p 0 o Hp) as [-> | ->]; reflexivity.
+  destruct (generic_retry_nonretryable p 0 o Hp) as [-> | ->];
+    eexists; (split; [|reflexivity]); auto.
 Qed.
 
 (* ------------------------------------------------------------------ *)
@@ -403,6 +423,7 @@ Proof.
       destruct (Hstep _ _ _ _ _ _ Hn Hs) as (B1 & B2 & B3) end.
   - auto.
   - auto.
+  - auto.
   - repeat split; auto. intro Hk.
     match goal with Hrw : rewind _ _ = RwOk _ |- _ =>
       unfold rewind in Hrw; rewrite Hk in Hrw; injection Hrw as <- end. auto.
@@ -429,13 +450,15 @@ Lemma round_trip_not_replayable p cn bd st sc t :
     next_beh sc = (bh, sc') /\ serve cn bd st bh t = (got, st1, o, t1) /\
     o_trace (round_trip p cn bd st sc t) = [EAttempt t got] /\
     (o_res (round_trip p cn bd st sc t) = result_of_outcome o \/
+     o_res (round_trip p cn bd st sc t) = fail_result o \/
      o_res (round_trip p cn bd st sc t) = RPanic).
 Proof.
   intro Hrw. unfold round_trip, rt_fuel. cbn [rt_loop].
   pose proof (rt_step_spec p cn bd st sc t 0 []) as H.
   inversion H; subst; cbn [o_trace o_res app].
   - exists bh, sc', got, st1, o, t1. auto.
-  - exists bh, sc', got, st1, o, t1. auto.
+  - exists bh, sc', got, st1, o, t1. auto 6.
+  - exists bh, sc', got, st1, o, t1. auto 6.
   - match goal with Hr : rewind _ _ = RwOk _ |- _ => destruct (Hrw st1) as [E|E]; rewrite E in Hr; discriminate end.
   - match goal with Hr : rewind _ _ = RwOk _ |- _ => destruct (Hrw st1) as [E|E]; rewrite E in Hr; discriminate end.
 Qed.
@@ -492,6 +515,9 @@ Proof.
   - repeat split; auto.
     + apply Forall_app. split; [exact Ha|]. constructor; [exact Ht0|constructor].
     + eapply Forall_impl; [|exact Hp]. intros pd (A & B). auto.
+  - repeat split; auto.
+    + apply Forall_app. split; [exact Ha|]. constructor; [exact Ht0|constructor].
+    + eapply Forall_impl; [|exact Hp]. intros pd (A & B). auto.
   - cbn [cancel_clock]. rewrite Z.max_r by exact T1.
     repeat split; auto; try lia.
     + apply Forall_app. split; [exact Ha|]. constructor; [exact Ht0|constructor].
@@ -510,15 +536,15 @@ Qed.
 (* ------------------------------------------------------------------ *)
 (* auth.Client.Do on top                                                *)
 
-Lemma auth_do_attempts warm p cn bd sc :
-  let a := auth_do warm p cn bd sc in
+Lemma auth_do_at_attempts warm p cn bd sc t0 :
+  let a := auth_do_at warm p cn bd sc t0 in
   1 <= Z.of_nat (length (attempts (a_first a))) <= maxr p + 1 /\
   Z.of_nat (length (attempts (a_second a))) <= maxr p + 1 /\
   Z.of_nat (length (attempts (a_third a))) <= maxr p + 1.
 Proof.
-  unfold auth_do.
-  pose proof (round_trip_attempts p cn bd (init_state bd) sc 0) as H1. cbv zeta in H1.
-  set (o1 := round_trip p cn bd (init_state bd) sc 0) in *.
+  unfold auth_do_at.
+  pose proof (round_trip_attempts p cn bd (init_state bd) sc t0) as H1. cbv zeta in H1.
+  set (o1 := round_trip p cn bd (init_state bd) sc t0) in *.
   assert (Hm : 0 <= maxr p + 1) by (unfold maxr; lia).
   destruct (challenged (o_res o1));
     [|cbn [a_first a_second a_third attempts length]; repeat split; try apply H1; exact Hm].
@@ -533,6 +559,13 @@ Proof.
   pose proof (round_trip_attempts p cn bd st3 (o_script o2) (o_time o2)) as H3. cbv zeta in H3.
   repeat split; try apply H1; try apply H2; apply H3.
 Qed.
+
+Lemma auth_do_attempts warm p cn bd sc :
+  let a := auth_do warm p cn bd sc in
+  1 <= Z.of_nat (length (attempts (a_first a))) <= maxr p + 1 /\
+  Z.of_nat (length (attempts (a_second a))) <= maxr p + 1 /\
+  Z.of_nat (length (attempts (a_third a))) <= maxr p + 1.
+Proof. exact (auth_do_at_attempts warm p cn bd sc 0). Qed.
 
 Lemma bodies_ok_app bd sc base l1 l2 :
   bodies_ok bd sc base l1 -> bodies_ok bd sc (base + length l1) l2 -> bodies_ok bd sc base (l1 ++ l2).
@@ -550,7 +583,7 @@ Lemma auth_do_bodies warm p cn bd sc :
   let a := auth_do warm p cn bd sc in
   bodies_ok bd sc 0 (attempts (a_first a) ++ attempts (a_second a) ++ attempts (a_third a)).
 Proof.
-  intro Hwf. unfold auth_do.
+  intro Hwf. unfold auth_do, auth_do_at.
   destruct (round_trip_bodies_gen p cn bd sc 0%nat (init_state bd) 0 Hwf eq_refl) as (B1 & S1 & N1).
   cbn [skipn] in *.
   set (o1 := round_trip p cn bd (init_state bd) sc 0) in *.
@@ -585,7 +618,7 @@ Lemma auth_do_not_replayable warm p cn bd sc :
   (challenged (o_res (round_trip p cn bd (init_state bd) sc 0)) = true ->
    a_res a = RNotRewindable \/ a_res a = RGetBodyFailed).
 Proof.
-  intro Hrw. unfold auth_do.
+  intro Hrw. unfold auth_do, auth_do_at.
   destruct (round_trip_not_replayable p cn bd (init_state bd) sc 0 Hrw)
     as (bh & sc' & got & st1 & o & t1 & _ & _ & Htr & _).
   set (o1 := round_trip p cn bd (init_state bd) sc 0) in *.
@@ -722,7 +755,7 @@ Lemma auth_do_cancel warm p bd sc tc dl :
   Forall (fun x => fst x <= tc) (attempts (a_first a) ++ attempts (a_second a) ++ attempts (a_third a)) /\
   a_time a <= tc.
 Proof.
-  intro Htc. unfold auth_do.
+  intro Htc. unfold auth_do, auth_do_at.
   destruct (round_trip_cancel p bd (init_state bd) sc 0 tc dl Htc) as (A1 & T1 & _).
   set (o1 := round_trip p (Some (tc, dl)) bd (init_state bd) sc 0) in *.
   destruct (challenged (o_res o1));
@@ -739,4 +772,87 @@ Proof.
   destruct (round_trip_cancel p bd st3 (o_script o2) (o_time o2) tc dl T2) as (A3 & T3 & _).
   split; [|assumption].
   apply Forall_app; split; [assumption|]. apply Forall_app; split; assumption.
+Qed.
+
+(* ------------------------------------------------------------------ *)
+(* auth.Client.Do started anywhere in a script, and blobStore.Push on top *)
+
+Lemma auth_do_at_bodies_gen warm p cn bd sc0 base t0 :
+  wf_body bd ->
+  let a := auth_do_at warm p cn bd (skipn base sc0) t0 in
+  bodies_ok bd sc0 base (auth_attempts a).
+Proof.
+  intro Hwf. unfold auth_do_at, auth_attempts.
+  destruct (round_trip_bodies_gen p cn bd sc0 base (init_state bd) t0 Hwf eq_refl) as (B1 & S1 & N1).
+  set (o1 := round_trip p cn bd (init_state bd) (skipn base sc0) t0) in *.
+  destruct (challenged (o_res o1)); [|cbn [a_first a_second a_third attempts]; rewrite !app_nil_r; exact B1].
+  destruct (rewind bd (o_st o1)) as [st2| |] eqn:Hrw; cbn [a_first a_second a_third attempts];
+    try (rewrite !app_nil_r; exact B1).
+  assert (Hf : s_rest st2 = bdata bd) by (eapply rewind_fresh; eauto).
+  rewrite S1.
+  destruct (round_trip_bodies_gen p cn bd sc0 (base + length (attempts (o_trace o1))) st2 (o_time o1) Hwf Hf)
+    as (B2 & S2 & N2).
+  set (o2 := round_trip p cn bd st2 (skipn (base + length (attempts (o_trace o1))) sc0) (o_time o1)) in *.
+  destruct (warm && bearer_challenged (o_res o1) && unauthorized (o_res o2)).
+  2:{ cbn [a_first a_second a_third attempts]. rewrite app_nil_r. apply bodies_ok_app; assumption. }
+  destruct (rewind bd (o_st o2)) as [st3| |] eqn:Hrw2; cbn [a_first a_second a_third attempts];
+    try (rewrite app_nil_r; apply bodies_ok_app; assumption).
+  assert (Hf3 : s_rest st3 = bdata bd) by (eapply rewind_fresh; eauto).
+  rewrite S2.
+  destruct (round_trip_bodies_gen p cn bd sc0
+              (base + length (attempts (o_trace o1)) + length (attempts (o_trace o2))) st3 (o_time o2) Hwf Hf3)
+    as (B3 & _ & _).
+  apply bodies_ok_app; [exact B1|]. apply bodies_ok_app; [exact B2|exact B3].
+Qed.
+
+Lemma plain_do_at_bodies_gen p cn bd sc0 base t0 :
+  wf_body bd ->
+  bodies_ok bd sc0 base (auth_attempts (plain_do_at p cn bd (skipn base sc0) t0)).
+Proof.
+  intro Hwf. unfold plain_do_at, auth_attempts. cbn [a_first a_second a_third attempts].
+  rewrite !app_nil_r.
+  destruct (round_trip_bodies_gen p cn bd sc0 base (init_state bd) t0 Hwf eq_refl) as (B1 & _ & _).
+  exact B1.
+Qed.
+
+(* blob push: every request of the PUT -- first attempt, retries, re-send after a challenge --
+   carries the blob as far as the registry reads it; the script position of the PUT's
+   requests starts after the POST's *)
+Lemma blob_push_bodies authc p cn bd sc :
+  wf_body bd ->
+  match u_put (blob_push authc p cn bd sc) with
+  | Some put => bodies_ok bd sc (length (auth_attempts (u_post (blob_push authc p cn bd sc)))) (auth_attempts put)
+  | None => True
+  end.
+Proof.
+  intro Hwf. unfold blob_push.
+  set (post := if authc then auth_do_at false p cn no_body sc 0 else plain_do_at p cn no_body sc 0).
+  destruct (accepted (a_res post)); cbn [u_put u_post]; [|exact I].
+  destruct (authc && negb match attempts (a_second post) with [] => false | _ :: _ => true end).
+  - apply auth_do_at_bodies_gen. exact Hwf.
+  - apply plain_do_at_bodies_gen. exact Hwf.
+Qed.
+
+(* a one-shot blob is sent once by the PUT; nothing truncated is ever re-sent *)
+Lemma blob_push_not_replayable authc p cn bd sc :
+  (forall st', rewind bd st' = RwNoGetBody \/ rewind bd st' = RwGetBodyErr) ->
+  match u_put (blob_push authc p cn bd sc) with
+  | Some put => length (auth_attempts put) = 1%nat
+  | None => True
+  end.
+Proof.
+  intro Hrw. unfold blob_push.
+  set (post := if authc then auth_do_at false p cn no_body sc 0 else plain_do_at p cn no_body sc 0).
+  destruct (accepted (a_res post)); cbn [u_put]; [|exact I].
+  set (sc' := skipn (length (auth_attempts post)) sc).
+  destruct (round_trip_not_replayable p cn bd (init_state bd) sc' (a_time post) Hrw)
+    as (bh & sc'' & got & st1 & o & t1 & _ & _ & Htr & _).
+  destruct (authc && negb match attempts (a_second post) with [] => false | _ :: _ => true end).
+  - unfold auth_do_at, auth_attempts.
+    set (o1 := round_trip p cn bd (init_state bd) sc' (a_time post)) in *.
+    destruct (challenged (o_res o1)).
+    + destruct (Hrw (o_st o1)) as [E|E]; rewrite E; cbn [a_first a_second a_third attempts];
+        rewrite Htr; reflexivity.
+    + cbn [a_first a_second a_third attempts]. rewrite Htr. reflexivity.
+  - unfold plain_do_at, auth_attempts. cbn [a_first a_second a_third attempts]. rewrite Htr. reflexivity.
 Qed.
